@@ -2,14 +2,22 @@
 # usage: exp_mutant.sh <patch-file> <PROP> [seed]   -- evaluates a change in the scratch tree /var/tmp/pika-m-wt
 # (never touches /repo): patched libpika (hooks on) -> harness build /var/tmp/hbm2 -> the property's check
 patch=$1; prop=$2; seed=${3:-7}
+# scratch worktree and verification build of it (created on first use; remove both when done:
+#   git -C /repo worktree remove --force /var/tmp/pika-m-wt; rm -rf /var/tmp/pika-m-build /var/tmp/hbm2)
+if [ ! -d /var/tmp/pika-m-wt ]; then git -C /repo worktree add --detach /var/tmp/pika-m-wt HEAD > /dev/null 2>&1 || exit 9; fi
 cd /var/tmp/pika-m-wt || exit 9
-git checkout -q -- . && git apply "$patch" || { echo "PATCH DOES NOT APPLY"; exit 9; }
+git checkout -q -- . && git checkout -q --detach "$(git -C /repo rev-parse HEAD)" && git apply "$patch" || { echo "PATCH DOES NOT APPLY"; exit 9; }
+if [ ! -f /var/tmp/pika-m-build/build.ninja ]; then
+  cmake -S /var/tmp/pika-m-wt -B /var/tmp/pika-m-build -G Ninja -DCMAKE_BUILD_TYPE=RelWithDebInfo -Dfmt_DIR=/usr/lib/x86_64-linux-gnu/cmake/fmt \
+    -DPIKA_WITH_MALLOC=system -DPIKA_WITH_TESTS=OFF -DPIKA_WITH_EXAMPLES=OFF -DPIKA_WITH_UNITY_BUILD=ON -DPIKA_WITH_MPI=ON \
+    "-DCMAKE_CXX_FLAGS=-Wno-error -DPIKA_VERIF" > /var/tmp/pika-m-cfg.log 2>&1 || { echo "CONFIGURE FAILED"; exit 9; }
+fi
 git diff --stat | tail -1
 nice -n 5 ninja -C /var/tmp/pika-m-build -j8 pika > /var/tmp/exp-build.log 2>&1 || { echo "LIB BUILD FAILED"; tail -20 /var/tmp/exp-build.log; exit 9; }
 if [ ! -f /var/tmp/hbm2/build.ninja ]; then
   cmake -G Ninja -S /verif/harness -B /var/tmp/hbm2 -DCMAKE_BUILD_TYPE=RelWithDebInfo -Dfmt_DIR=/usr/lib/x86_64-linux-gnu/cmake/fmt -Dpika_DIR=/var/tmp/pika-m-build/lib/cmake/pika > /var/tmp/hbm2.cfg.log 2>&1 || exit 9
 fi
-cd /verif && VERIF_SEED=$seed python3 /var/tmp/exprun.py $prop /var/tmp/hbm2 > /var/tmp/exp-$prop.log 2>&1
+cd /verif && VERIF_SEED=$seed python3 /verif/tools/exprun.py $prop /var/tmp/hbm2 > /var/tmp/exp-$prop.log 2>&1
 echo "rc=$? violations=$(grep -c '^VIOLATION' /var/tmp/exp-$prop.log) known=$(grep -c '^KNOWN-FINDING' /var/tmp/exp-$prop.log)"
 grep "^VIOLATION\|BROKEN" /var/tmp/exp-$prop.log | head -3 | cut -c1-220; tail -2 /var/tmp/exp-$prop.log | head -1 | cut -c1-200
 cd /var/tmp/pika-m-wt && git checkout -q -- .
